@@ -236,7 +236,7 @@ theorem splitWs13_eq (s : String) : C13.splitWs s = C02.splitWs s.toList := by
 /-! ### `C13.tokenize` on brace-free characters -/
 
 /-- a character that `_tokenize` treats as `str.split()` does -/
-def CharPlain (c : Char) : Prop := c ≠ '{' ∧ c ≠ '}' ∧ C13.isSep c = C02.isWs c
+def CharPlain (c : Char) : Prop := c ≠ '$' ∧ c ≠ '{' ∧ c ≠ '}' ∧ C13.isSep c = C02.isWs c
 
 theorem tok_fold (cs : List Char) (h : ∀ c ∈ cs, CharPlain c) :
     ∀ (done : List (List Char)) (cur : List Char),
@@ -252,7 +252,7 @@ theorem tok_fold (cs : List Char) (h : ∀ c ∈ cs, CharPlain c) :
     · simp [C13.tokFinish, C13.closeTok, splitGo, hc]
   | cons c t ih =>
     intro done cur
-    obtain ⟨h1, h2, h3⟩ := h c (by simp)
+    obtain ⟨_, h1, h2, h3⟩ := h c (by simp)
     have iht := ih (fun x hx => h x (by simp [hx]))
     simp only [List.foldl_cons, splitGo]
     by_cases hc : cur = []
@@ -280,10 +280,11 @@ theorem tokenizeS_plain (cs : List Char) (h : ∀ c ∈ cs, CharPlain c) :
   have := tok_fold cs h [] []
   simpa [C13.tokenizeS, C13.tokenize, C02.splitWs] using this
 
-theorem charPlain_space : CharPlain ' ' := ⟨by decide, by decide, by decide⟩
+theorem charPlain_space : CharPlain ' ' := ⟨by decide, by decide, by decide, by decide⟩
 
-theorem charPlain_of_notWs (c : Char) (h1 : c ≠ '{') (h2 : c ≠ '}') (hw : C02.isWs c = false) : CharPlain c := by
-  refine ⟨h1, h2, ?_⟩
+theorem charPlain_of_notWs (c : Char) (h0 : c ≠ '$') (h1 : c ≠ '{') (h2 : c ≠ '}') (hw : C02.isWs c = false) :
+    CharPlain c := by
+  refine ⟨h0, h1, h2, ?_⟩
   rw [hw]
   simp only [C02.isWs, Bool.or_eq_false_iff, decide_eq_false_iff_not] at hw
   simp [C13.isSep, hw.1.1.1.1.1, hw.1.1.1.1.2, hw.1.1.2]
